@@ -7,7 +7,7 @@ From Coq Require Import List NArith ZArith.
 From Coq.Strings Require Import Byte.
 From SP Require Import Bytes Params Msgpack Crypto Errors Nonce Packets Chunker Rand Sign Verify Encrypt Decrypt Signcrypt Spec
      ConformProofs.
-From SP Require GoLang GoLang2 GoAstProofs ChunkerProofs GoAstProofs5a GoAstProofs6a GoAstProofs6b.
+From SP Require GoLang GoLang2 GoAstProofs ChunkerProofs GoAstProofs5a GoAstProofs5c GoAstProofs6a GoAstProofs6b.
 From Coq Require String.
 Import ListNotations.
 Open Scope N_scope.
@@ -84,7 +84,7 @@ Proof. exact (sig_nonce_is_16_bytes c v sk pieces r r' out). Qed.
    imports one of them. *)
 
 Section C08_encryption_sender.   (* GoAstProofs5a.v *)
-Import GoLang GoLang2 GoAstProofs GoAstProofs5a String.StringSyntax.
+Import GoLang GoLang2 GoAstProofs GoAstProofs5a GoAstProofs5c String.StringSyntax.
 
 (* init = the head of the model's seal_stream.  With the in-memory writer (hypothesis: the encoder object is
    VBytes out) and the three sources drawn as the model draws them from ONE stream r (model_sources: the key
@@ -110,6 +110,65 @@ Theorem C08_source_es_init_model (c : crypto) (st : es_state) (out : bytes) (v :
              (fun body => Ok (hdr_pkt ++ body, rc'))
   end.
 Proof. exact (es_init_model c st out v sender rcpts pieces r). Qed.
+(* The next three theorems (proofs/GoAstProofs5c.v) are about a stream in good standing,
+   gst v out pk buf hh mks n = the *encryptStream object with version v, the in-memory encoder VBytes out (the bytes
+   written so far), payload key pk, buffered plaintext buf, header hash hh, MAC keys mks, numBlocks n and no stored
+   error.  emit c v pk hh mks n bs / emit_plan c v pk hh mks n plan are the packets the model's encrypt_packets emits
+   for the non-final blocks bs / for the plan (chunks with their final flags) numbered from n on (the last conjunct of
+   C08_source_es_session_model says so); blk = 1 MiB as the code passes it to Buffer.Next (= enc_block_size).
+   Common hypotheses: Hsb = a secretbox is 16 bytes longer than its plaintext (crypto_ok.ok_sb_len); a known version
+   (v1 or v2); at least one MAC key (with none go-codec writes MessagePack nil where the model writes an empty array). *)
+
+(* Write: es_write (= the translated encryptStream.Write, C01_source_encryptStream_Write) over the in-memory writer
+   flushes exactly the blocks of the model's chunker, fst (cw_write 1MiB buf p), as the model's packets appended to
+   out, leaves snd (cw_write ..) buffered, adds the number of blocks to numBlocks and returns (len p, nil).
+   Further hypotheses: buffer ++ p of at most 296 MiB (the evaluator's loop bound, not a bound on the Go code);
+   numBlocks + blocks <= 2^64-1. *)
+Theorem C08_source_es_write_model (c : crypto)
+        (Hsb : forall k n m, List.length (sb_seal c k n m) = (16 + List.length m)%nat)
+        (v : version) (pk hh : bytes) (mks : list bytes) (buf out : bytes) (n : N) (p : bytes) :
+  v = v1 \/ v = v2 -> mks <> [] -> (List.length (buf ++ p) <= 296 * blk)%nat ->
+  (n + N.of_nat (List.length (fst (cw_write blk buf p))) <= 18446744073709551615)%N ->
+  es_write c mem_enc (gst v out pk buf hh mks n) p
+  = WRet (Z.of_nat (List.length p)) None
+         (gst v (out ++ emit c v pk hh mks n (fst (cw_write blk buf p))) pk (snd (cw_write blk buf p)) hh mks
+              (n + N.of_nat (List.length (fst (cw_write blk buf p))))).
+Proof. exact (es_write_model c Hsb v pk hh mks buf out n p). Qed.
+
+(* Close: es_close (= the translated encryptStream.Close, C01_source_encryptStream_Close) over the in-memory writer
+   emits exactly the packets of the model's cw_close v 1MiB buf (V1: the last data block if any, then the empty final
+   packet; V2: the single final packet), empties the buffer and returns nil.  Further hypotheses: the buffer
+   discipline Write maintains — at most one block buffered, and an empty buffer only before the first packet;
+   numBlocks + packets <= 2^64-1. *)
+Theorem C08_source_es_close_model (c : crypto)
+        (Hsb : forall k n m, List.length (sb_seal c k n m) = (16 + List.length m)%nat)
+        (v : version) (pk hh : bytes) (mks : list bytes) (buf out : bytes) (n : N) :
+  v = v1 \/ v = v2 -> mks <> [] -> (List.length buf <= blk)%nat -> (buf <> [] \/ n = 0%N) ->
+  (n + N.of_nat (List.length (cw_close v blk buf)) <= 18446744073709551615)%N ->
+  es_close c mem_enc (gst v out pk buf hh mks n)
+  = CloseRet None (gst v (out ++ emit_plan c v pk hh mks n (cw_close v blk buf)) pk [] hh mks
+                       (n + N.of_nat (List.length (cw_close v blk buf)))).
+Proof. exact (es_close_model c Hsb v pk hh mks buf out n). Qed.
+
+(* a whole session (es_session: es_write per piece, stopping at the first error, then es_close) over the in-memory
+   writer leaves in the encoder, after out, exactly the bytes the model's encrypt_packets gives for cw_session of the
+   pieces — the body of the model's seal_core (C08_source_es_init_model supplies the header packet before it) —
+   whatever the split into pieces.  Further hypotheses: pieces of at most 295 MiB (evaluator fuel); the buffer
+   discipline at the start; numBlocks + packets <= 2^64-1. *)
+Theorem C08_source_es_session_model (c : crypto)
+        (Hsb : forall k n m, List.length (sb_seal c k n m) = (16 + List.length m)%nat)
+        (v : version) (pk hh : bytes) (mks : list bytes) :
+  v = v1 \/ v = v2 -> mks <> [] ->
+  forall (pieces : list bytes) (buf out : bytes) (n : N),
+  Forall (fun p : bytes => (List.length p <= 295 * blk)%nat) pieces ->
+  (List.length buf <= blk)%nat -> (buf <> [] \/ n = 0%N) ->
+  (n + N.of_nat (List.length (cw_session v blk buf pieces)) <= 18446744073709551615)%N ->
+  es_session c (gst v out pk buf hh mks n) pieces
+  = CloseRet None (gst v (out ++ emit_plan c v pk hh mks n (cw_session v blk buf pieces)) pk [] hh mks
+                       (n + N.of_nat (List.length (cw_session v blk buf pieces)))) /\
+  encrypt_packets c v pk hh mks n (cw_session v blk buf pieces)
+  = Ok (emit_plan c v pk hh mks n (cw_session v blk buf pieces)).
+Proof. exact (es_session_model c Hsb v pk hh mks). Qed.
 End C08_encryption_sender.
 
 Section C08_signing_senders.   (* GoAstProofs6a.v *)
@@ -324,6 +383,9 @@ Proof. exact (sss_seal_core c Hsb Hsig st boxes syms ra rk rb rs ra1 eph_sk rb1 
 End C08_signcryption_sender.
 
 Print Assumptions C08_source_es_init_model.
+Print Assumptions C08_source_es_write_model.
+Print Assumptions C08_source_es_close_model.
+Print Assumptions C08_source_es_session_model.
 Print Assumptions C08_source_mk_sig_block_model.
 Print Assumptions C08_source_sas_block_from_model.
 Print Assumptions C08_source_sas_write_model.
